@@ -437,6 +437,28 @@ impl<'a> G<'a> {
         self.after_writer_op();
         true
     }
+    fn dispose_ts(&mut self, ts: i64) -> bool {
+        if self.dispose() {
+            let i = self.ops.iter().rposition(|o| matches!(o, Op::Dispose { .. })).unwrap();
+            if let Op::Dispose { ts: t, .. } = &mut self.ops[i] {
+                *t = ts;
+            }
+            true
+        } else {
+            false
+        }
+    }
+    fn unreg_ts(&mut self, ts: i64) -> bool {
+        if self.unreg() {
+            let i = self.ops.iter().rposition(|o| matches!(o, Op::Unreg { .. })).unwrap();
+            if let Op::Unreg { ts: t, .. } = &mut self.ops[i] {
+                *t = ts;
+            }
+            true
+        } else {
+            false
+        }
+    }
     fn unreg(&mut self) -> bool {
         let cands: Vec<(usize, u32)> =
             (0..self.n_writers).flat_map(|w| self.reg[w].iter().map(move |k| (w, *k))).collect();
@@ -781,12 +803,48 @@ fn gen_c25(rng: &mut Rng, thorough: bool) -> Hist {
     cfg.min_sep_ms = sep;
     // 0: in-order stamps only, 1: occasional steps back, 2: random
     let pattern = rng.below(3);
+    // a quarter of the histories contain dispose / unregister_instance and re-writes after them
+    // (instance rebirth); half of those additionally the sequence
+    // write(T); take; dispose|unregister(near or far from T); write(near or far from T); read
+    let lifecycle = rng.chance(0.25);
+    let targeted = lifecycle && rng.chance(0.5);
+    if lifecycle {
+        for a in cfg.autodispose.iter_mut() {
+            *a = rng.bool();
+        }
+    }
     let n = n_ops(rng, thorough);
+    let inject_at = if targeted { rng.usize(n.max(1)) } else { usize::MAX };
+    let mut injected = false;
     let mut g = G::new(rng, cfg.n_writers, n_inst);
     let mut cur = 100i64;
     while g.ops.len() < n {
+        if targeted && !injected && g.ops.len() >= inject_at {
+            injected = true;
+            let (w, k) = (g.writer(), g.key());
+            let t = cur + 2 * sep + 1;
+            cur = t;
+            g.write_ts(w, k, t);
+            g.reader(Op::Read(ReadOp { take: true, sel: Sel::Inst(k), max: MAX_ALL, ss: SS_ANY, vs: VS_ANY, is: IS_ANY }));
+            let tn = t + *g.rng.pick(&[0, 1, sep - 1, sep - 1, sep, 2 * sep]);
+            if g.rng.bool() {
+                g.ops.push(Op::Dispose { w, key: k, ts: tn });
+            } else {
+                g.ops.push(Op::Unreg { w, key: k, ts: tn });
+                g.reg[w].retain(|x| *x != k);
+            }
+            if g.rng.chance(0.3) {
+                let tk = g.rng.bool();
+                g.reader(read_all(tk));
+            }
+            let t2 = t + *g.rng.pick(&[1, sep - 1, sep - 1, sep - 1, sep, 3 * sep]);
+            let w2 = if g.rng.chance(0.7) { w } else { g.writer() };
+            g.write_ts(w2, k, t2.max(0));
+            g.reader(read_all(false));
+            continue;
+        }
         let r = g.rng.below(100);
-        if r < 72 {
+        if r < 62 || (r < 72 && !lifecycle) {
             let step = *g.rng.pick(&[0, 0, 1, sep - 1, sep - 1, sep, sep, sep + 1, 2 * sep, 3 * sep + 1]);
             let ts = match pattern {
                 0 => {
@@ -805,6 +863,22 @@ fn gen_c25(rng: &mut Rng, thorough: bool) -> Hist {
             };
             let (w, k) = (g.writer(), g.key());
             g.write_ts(w, k, ts.max(0));
+        } else if r < 72 {
+            // dispose (6%) / unregister (4%), stamped near (within the separation of the current
+            // stamp) or far
+            let d = *g.rng.pick(&[0, 1, sep - 1, sep, 2 * sep + 1]);
+            let ts = match pattern {
+                2 => 100 + g.rng.below((6 * sep + 4) as u64) as i64,
+                _ => cur + d,
+            };
+            if d >= sep && pattern != 2 {
+                cur = ts;
+            }
+            if r < 68 {
+                g.dispose_ts(ts);
+            } else {
+                g.unreg_ts(ts);
+            }
         } else if r < 76 {
             let k = 2 + g.rng.below(4) as u32;
             g.freeze(k);
